@@ -157,8 +157,23 @@ def make_scenarios(rng, tier, focus, count):
             failing = rng.choice([1, 2])
             sched = {"seed": rng.randrange(1 << 30), "codes": {RC.ident_of(pkgs, failing): rng.choice([1, 2, {"signal": 9}])}, "fail_launch": [],
                      "p_exit": rng.choice([0.15, 0.3]), "p_deliver": rng.choice([0.5, 0.9]), "allow_steal": False}
-        if focus == "reap" and rng.random() < 0.3:
+        if focus in ("deps", "reap") and k % 10 == 3:
+            # a chain of process tasks next to a child that is not a task and exits early: much later a task of the chain is
+            # forked with the recycled id of that child
+            n = rng.choice([4, 5])
+            kk5 = lambda: rng.choice(["exp", "cmd"])
+            g = {"n": n, "target": n, "deps": [[]] + [[i] for i in range(1, n)], "kind": [kk5() for _ in range(n)],
+                 "par": [rng.random() < 0.5 for _ in range(n)], "cachedTs": [0] * n, "stale": [False] * n, "again": False,
+                 "atLeast": False, "now": 1000, "lastTs0": 0}
+            jobs = rng.choice([1, 2])
+            stop = False
+            sched = {"seed": rng.randrange(1 << 30), "codes": {}, "fail_launch": [], "p_exit": 0.6, "p_deliver": 0.7,
+                     "allow_steal": False, "unrelated": True, "reuse_pids": True}
+        elif (focus == "reap" and rng.random() < 0.3) or (focus == "deps" and k % 5 == 1):
+            # a child of `cond` that is not a task (left behind by a library, adopted, started before exec); process ids are
+            # recycled, so a later task may get its id - or the id of an earlier task
             sched["unrelated"] = True
+            sched["reuse_pids"] = True
         if focus in ("slots", "reap") and k % 4 == 1:
             # job control: running task processes get stopped and continued from outside (a stopped process still exists)
             sched["allow_stop"] = True
